@@ -228,7 +228,7 @@ fn k_int_3_maybe_changed_after() {
 #[cfg_attr(kani, kani::unwind(6))]
 #[cfg_attr(salsa_verif_replay, test)]
 fn k_int_5_report_read_if_reusable() {
-    let local = ZalsaLocal::new();
+    let local = crate::zalsa_local::verif::local_static();
     let g = local.push_query(vk::key(7, 1));
     let d = vk::any_durability();
     let cur = vk::any_revision();
